@@ -84,6 +84,16 @@ BUILT = {
             "(1) every registered handler is run on the real engine in 6 state classes and its sequence of lock acquisitions / releases on the engine's locks and the global configuration is recorded; (2) the product of every pair of distinct traces, and of every reader/reader/writer and reader/writer/writer triple, is searched exhaustively for a state in which no thread can move, under the semantics 'a read is granted iff no writer holds and no writer is queued' (tested against std's RwLock on every run); no trace may re-acquire a lock that some handler writes, and all traces must respect one acquisition order (which generalises the result to any number of threads); (3) a controlled scheduler runs the real handlers of every pair involving a writer through every schedule with at most 1 (thorough: 2) preemptions at lock-acquisition points, detecting deadlock with its own lock model, and requires that nothing panics and that the engine still serves afterwards; the observed lock events are compared with the extracted traces (conformance count).",
             "Scheduling points are the lock acquisitions of SharedData (data races on other memory are outside the property). Waits with a time-out count as always eventually enabled. Three-thread combinations are checked on compressed traces (adjacent repetitions of balanced segments removed).",
             "DESIGN.md §4 C11, Appendix C"),
+    "C12": ("wire", "exploration",
+            "complete enumeration of the finite space method x request form x credential x configuration over real HTTP against a server started with the public start()",
+            "Every registered method (taken from the dispatch table and cross-checked with the #[method] attributes in the source) x {call, notification, first / middle / last element of a batch among permitted calls, batch of only this method} x {no header, wrong user, wrong password, malformed header, not base64, lower-case scheme, bearer, correct} on a real server with authentication enabled, and every method without credentials on a server with authentication disabled; a request that must be refused must answer 401 Unauthorized (per element in a batch, permitted neighbours still served) and leave the state digest unchanged; a permitted request must not be refused; any method whose permitted execution changes the digest must be on the protected list.",
+            "The digest is made of public reads. jsonrpsee never executes notifications (also authorised ones): both outcomes are accepted for those.",
+            "DESIGN.md §4 C12"),
+    "C20": ("wire", "exploration",
+            "complete enumeration of (creating configuration, reopening configuration) pairs through the real start-up path in child processes",
+            "All 196 ordered pairs over 7 network names x trace on/off through validate_config_database; through the public start() in child processes every configuration restarted as itself on a populated directory (must come up and serve the same state) and all 182 mismatching pairs (must refuse to start); each of the four recorded keys missing / altered / empty; foreign non-empty directories (stray file, empty config database, table directories only).",
+            "Network names are compared as recorded. Protocol / database version mismatches are produced by altering the recorded rows (the constants cannot be changed without editing the crate).",
+            "DESIGN.md §4 C20"),
 }
 
 NOT_BUILT_REASON = "check not built yet in this round (planned in DESIGN.md §4); nothing is claimed for it"
@@ -127,6 +137,8 @@ def main():
              "kind_free_text": "request-grid enumerator: worker processes watched by the parent (hang = no progress), panic capture, liveness rounds"},
             {"name": "lock", "path": "/verif/mc/src/props/c11.rs", "serves_properties": [p for p in props if p in BUILT and BUILT[p][0] == "lock"],
              "kind_free_text": "lock-trace extraction + product BFS under writer-preferring semantics + controlled scheduler over the real handlers"},
+            {"name": "wire", "path": "/verif/mc/src/wire.rs", "serves_properties": [p for p in props if p in BUILT and BUILT[p][0] == "wire"],
+             "kind_free_text": "transport-level enumeration: real server via start() in a child process, raw HTTP/1.1 client"},
             {"name": "store", "path": "/verif/mc/src/props/c13.rs", "serves_properties": [p for p in props if p in BUILT and BUILT[p][0] == "store"],
              "kind_free_text": "component explorer: BFS over the real store components against reference models; complete value grids through the real codecs"},
         ],
